@@ -61,6 +61,8 @@ def graphs(draw, max_edges=8, features=None):
                 e['depfile_layout'] = draw(st.integers(0, 3))
                 # how the "compiler" spells each hidden read in its depfile: canonical, or as -Iinc/.. style paths do
                 e['spell'] = draw(st.integers(0, 3))
+                if e['deps'] != 'msvc' and len(outs) + len(iouts) > 1 and draw(st.integers(0, 1)) == 1:
+                    e['df_targets'] = True      # the depfile names every output of the statement as a target, spelled like the reads
                 if e['deps'] != 'msvc' and f.get('depfile_dirs', True) and draw(st.integers(0, 3)) == 3:
                     e['dfdir'] = "dep%d/" % (ei % 2)      # depfile in a directory that holds no output
                 # a generated hidden read normally has an order-only manifest path to its producer (the
@@ -260,6 +262,8 @@ def real_args(g, e):
         a.append("--msvc")
     if e.get('deps') in ('gcc', 'depfile'):
         a += ["--depfile", models.depfile_path(e), "--layout", str(e.get('depfile_layout', 0))]
+        if e.get('df_targets'):
+            a += ["--depfile-targets", ",".join(depfile_targets(e))]
     if e.get('rsp') is not None:
         a += ["--rsp", key(e) + ".rsp"]
     for o, ov in (e.get('content_override') or {}).items():
@@ -337,6 +341,8 @@ def sim_edges(g, faults=None):
                  depfile_layout=e.get('depfile_layout', 0))
         if e.get('spell') and e.get('deps') in ('gcc', 'depfile'):
             s['hidden_spelled'] = [spell(h, e['spell']) for h in e.get('hidden', [])]
+        if e.get('df_targets') and e.get('deps') in ('gcc', 'depfile'):
+            s['depfile_target'] = " ".join(depfile_targets(e))
         if e.get('content_override'):
             s['content_override'] = e['content_override']
         if e.get('print'):
@@ -345,6 +351,11 @@ def sim_edges(g, faults=None):
             s.update(faults[key(e)])
         spec[key(e)] = s
     return spec
+
+
+def depfile_targets(e):
+    """all outputs of the statement as the depfile spells them (first output first, as ninja requires)"""
+    return [spell(o, e.get('spell', 0)) for o in all_outs(e)]
 
 
 def spell(path, style):
